@@ -1,5 +1,8 @@
 import Gsd.Driver.C01
+import Gsd.Driver.C02
+import Gsd.Driver.C03
 import Gsd.Driver.C04
+import Gsd.Driver.C05
 import Gsd.Driver.C06
 import Gsd.Driver.C07
 import Gsd.Driver.C08
@@ -17,7 +20,10 @@ import Gsd.Driver.C18
 def main (args : List String) : IO UInt32 := do
   match args with
   | "C01" :: rest => Gsd.Driver.C01.main rest
+  | "C02" :: rest => Gsd.Driver.C02.main rest
+  | "C03" :: rest => Gsd.Driver.C03.main rest
   | "C04" :: rest => Gsd.Driver.C04.main rest
+  | "C05" :: rest => Gsd.Driver.C05.main rest
   | "C06" :: rest => Gsd.Driver.C06.main rest
   | "C07" :: rest => Gsd.Driver.C07.main rest
   | "C08" :: rest => Gsd.Driver.C08.main rest
